@@ -1636,7 +1636,8 @@ def m_mem_drop(E, st, fid, t, args, dest_ty):
     return out
 
 
-@model(['core::ptr::drop_in_place'], 'UNSAFE: drop_in_place of a slot pointer == assume_init_drop (O2)')
+@model(['core::ptr::drop_in_place', 'core::ptr::mut_ptr::<impl *mut T>::drop_in_place'],
+       'UNSAFE: drop_in_place of a slot pointer == assume_init_drop (O2)')
 def m_drop_in_place(E, st, fid, t, args, dest_ty):
     tg = _raw_target(E, st, args[0], 'drop_in_place')
     if tg is None:
@@ -1888,6 +1889,39 @@ def m_replace(E, st, fid, t, args, dest_ty):
         return E.opaque_call(st, fid, t, args, dest_ty)
     old = E.load(st, d[2])
     nv = args[1]
+    if d[2][0] == 'mu' and nv[0] in ('mu_uninit', 'mu_init'):
+        # one slot exchanged as a MaybeUninit VALUE (safe code: the wrapper is plain data): what the slot held
+        # travels with the value handed back -- as a wrapped element if the slot was live -- and the slot takes
+        # the new wrapper (a live element must not be overwritten: it was just moved out; uninit over dead is a no-op)
+        mid, idx = d[2][1], d[2][2]
+        # (which element is taken must be known: where the slot may or may not be one whose content changed on this
+        # path -- e.g. the slot the predicate of retain just saw -- the cases are told apart first)
+        for j, _c in st.maps[mid].contents:
+            z = st.zone
+            if not z.entails_eq(idx, j) and not z.entails_ne(idx, j):
+                out = []
+                for rel in ('lt', 'eq', 'gt'):
+                    s2 = st.fork()
+                    if rel == 'lt':
+                        s2.zone.add_lt(idx, j)
+                    elif rel == 'eq':
+                        s2.zone.add_eq(idx, j)
+                    else:
+                        s2.zone.add_lt(j, idx)
+                    if s2.zone.sat:
+                        out.extend(m_replace(E, s2, fid, t, args, dest_ty))
+                return out
+        lv = slots.live(st, mid, idx)
+        if lv is True:
+            oldv = ('mu_init', E.slot_read(st, mid, idx, 'mem::replace(slot)'))
+        elif lv is False:
+            oldv = ('mu_uninit',)
+        else:
+            raise Unproven('mem::replace on a slot that is not known to be live or dead')
+        out = []
+        for s in E.store(st, d[2], nv):
+            out.append(('ret', s, oldv))
+        return out
     if d[2][0] == 'pairs' and nv == ('uninit_arr',):
         # the whole slot array is moved out of a container and replaced by a fresh uninitialised one (safe code: an
         # array of MaybeUninit is plain data).  What was live in it travels with the array value: a carrier
